@@ -38,8 +38,8 @@ TEXT = {
         'text': 'Machine-checked theorem C06_step: with a request pending, Gen.Step (regenerated from cpu.go) equals the abstract interrupt controller written from '
                 'the property text (NMI always; maskable iff IFF1; modes 1/2 push PC and vector, clearing IFF1 and IFF2; consumed; refused = ordinary instruction, '
                 'request stays) for EVERY state — all control bits, PC/SP wrap, vector byte and I universally quantified; C06_pending by induction over any number of '
-                'Steps; EI/DI/RETN/RETI obligations. Mode 0 with supplied bytes is checked against a recorded description (KF-1/KF-2 known findings).',
-        'note': NOTE_COMMON + ' Mode 0 with supplied bytes: not proved; real code compared with Spec.stepKF by correspondence only.',
+                'Steps; EI/DI/RETN/RETI obligations. Mode 0 with a supplied RST p: proved equal to the recorded description of this implementation (C06_im0_rst, every state) — the deviation from the Z80 is exactly KF-1/KF-2; other supplied instructions are checked against that description by correspondence.',
+        'note': NOTE_COMMON + ' Mode 0 with supplied bytes other than RST p: real code compared with Spec.stepKF by correspondence only.',
         'technique': 'Lean 4 proof: regenerated processInterrupt/Step = abstract controller (simp), induction for pending requests; differential correspondence incl. known-finding classification',
     },
     'C05': {
